@@ -188,7 +188,19 @@ func noopScript(s *fakeredis.Server, db int, script string, keys [][]byte, argv 
 }
 
 // refuse kinds of C18: what makes a unit unroutable on a cluster target
-var refuseKinds = []string{"txn2slots", "mset2slots", "del2slots", "emptytag", "lastbrace", "unknowncmd", "nestedbrace", "eval2slots"}
+var refuseKinds = []string{"txn2slots", "mset2slots", "del2slots", "emptytag", "lastbrace", "unknowncmd", "nestedbrace", "eval2slots", "twokeycmd", "twokeycmd"}
+
+// commands that address two keys, with the positions of both stated here independently of the tool's tables (Redis command
+// reference; RedisTimeSeries / RedisBloom command references): %a and %b stand for the two keys
+var twoKeyCmds = [][]string{
+	{"rename", "%a", "%b"}, {"renamenx", "%a", "%b"}, {"smove", "%a", "%b", "m"}, {"lmove", "%a", "%b", "LEFT", "RIGHT"},
+	{"rpoplpush", "%a", "%b"}, {"copy", "%a", "%b"}, {"sdiffstore", "%a", "%b"}, {"sinterstore", "%a", "%b"}, {"sunionstore", "%a", "%b"},
+	{"bitop", "AND", "%a", "%b"}, {"pfmerge", "%a", "%b"}, {"zunionstore", "%a", "1", "%b"}, {"zinterstore", "%a", "1", "%b"},
+	{"zrangestore", "%a", "%b", "0", "-1"}, {"geosearchstore", "%a", "%b", "FROMLONLAT", "0", "0", "BYRADIUS", "1", "km"},
+	{"lmpop", "2", "%a", "%b", "LEFT"}, {"zdiffstore", "%a", "1", "%b"},
+	{"ts.createrule", "%a", "%b", "AGGREGATION", "avg", "60000"}, {"ts.deleterule", "%a", "%b"},
+	{"sintercard", "2", "%a", "%b"}, {"blmove", "%a", "%b", "LEFT", "RIGHT", "0"}, {"brpoplpush", "%a", "%b", "0"},
+}
 
 // filterOn: generated scenarios configure a key filter and mix accepted and rejected keys in DEL / UNLINK / MSET
 var filterOn bool
@@ -365,6 +377,21 @@ func genScenario(r *hx.Rng, id int, maxUnits int, cluster bool, refuse string) *
 			addCmd(&un, cmd{"mset", [][]byte{k1, v, ka, v}})
 		case "unknowncmd":
 			addCmd(&un, cmd{"fooq", [][]byte{ka, v}})
+		case "twokeycmd":
+			// one command, two keys in two slots: whatever table or target answer the tool consults, it has to end in refusal
+			tpl := twoKeyCmds[r.Intn(len(twoKeyCmds))]
+			var args [][]byte
+			for _, a := range tpl[1:] {
+				switch a {
+				case "%a":
+					args = append(args, ka)
+				case "%b":
+					args = append(args, kb)
+				default:
+					args = append(args, []byte(a))
+				}
+			}
+			addCmd(&un, cmd{tpl[0], args})
 		}
 		un.E = off
 		sc.units = append(sc.units, un)
